@@ -384,6 +384,24 @@ namespace
             }
             if (callee->isConstexpr())
                 o["cx"] = true;
+            {
+                // which parameters may be written through (non-const lvalue reference / pointer)
+                json::Array pw;
+                bool any = false;
+                for (auto* p : callee->parameters())
+                {
+                    QualType t = p->getType();
+                    bool w = false;
+                    if (t->isLValueReferenceType() || t->isPointerType())
+                        w = !t->getPointeeType().isConstQualified();
+                    else if (t->isRValueReferenceType())
+                        w = true;  // forwarding / sink
+                    pw.push_back(w);
+                    any = any || w;
+                }
+                if (any)
+                    o["pw"] = std::move(pw);
+            }
             return nullptr;
         }
 
